@@ -186,3 +186,19 @@ Proof.
   rewrite <- (i_S _ I') in Hge. unfold lp_of in G |- *.
   repeat split; try assumption. lia.
 Qed.
+
+Lemma inv_never_emptied p : PairInv p -> 0 < p_S p ->
+  MINIMUM_LIQUIDITY <= p_S p /\ 0 < p_r1 p /\ 0 < p_r2 p /\ MINIMUM_LIQUIDITY <= lp_of p SELF.
+Proof. intros I HS. exact (run_never_emptied [] p I HS). Qed.
+
+(** both pools of the two-pair world, over every history of the world *)
+Lemma wrun_never_emptied ops w : WorldInv w -> 0 < p_S (w_p w) -> 0 < p_S (w_q w) ->
+  (MINIMUM_LIQUIDITY <= p_S (w_p (wrun w ops)) /\ 0 < p_r1 (w_p (wrun w ops)) /\ 0 < p_r2 (w_p (wrun w ops)) /\
+   MINIMUM_LIQUIDITY <= lp_of (w_p (wrun w ops)) SELF) /\
+  (MINIMUM_LIQUIDITY <= p_S (w_q (wrun w ops)) /\ 0 < p_r1 (w_q (wrun w ops)) /\ 0 < p_r2 (w_q (wrun w ops)) /\
+   MINIMUM_LIQUIDITY <= lp_of (w_q (wrun w ops)) SELF).
+Proof.
+  intros Hw HSp HSq. destruct (wrun_K ops w Hw HSp HSq) as ([Sp _] & [Sq _]).
+  destruct (wrun_inv ops w Hw) as (Ip & Iq).
+  split; apply inv_never_emptied; assumption.
+Qed.
